@@ -85,9 +85,33 @@ function sameNameGrid() {
   return out;
 }
 
+// a module imports a VALUE and declares a TYPE of the same name (separate namespaces in TypeScript):
+// a type reference must bind to the local declaration, `typeof` to the imported value
+function valueTypeNameGrid() {
+  const out = [];
+  const shapes = {
+    "alias-typeof": { decl: "type Level = typeof Level;", use: "{ x: Level }", val: (v) => obj([["x", v]]) },
+    "alias-union": { decl: 'type Level = typeof Level | "extra";', use: "Level[]", val: (v) => [v] },
+    iface: { decl: "interface Level { l: typeof Level }", use: "Level", val: (v) => obj([["l", v]]) },
+  };
+  const imports = {
+    named: { lib: 'export const Level = "high" as const;\n', imp: 'import { Level } from "./consts";' },
+    default: { lib: 'const Level = "high" as const;\nexport default Level;\n', imp: 'import Level from "./consts";' },
+    "named-from-hop": { lib: 'export const Level = "high" as const;\n', imp: 'import { Level } from "./hop";', hop: 'export { Level } from "./consts";\n' },
+  };
+  for (const [sn, sh] of Object.entries(shapes))
+    for (const [inn, im] of Object.entries(imports)) {
+      const tail = `${sh.decl}\nexport const Parsers = parse.buildParsers<{ P: ${sh.use} }>();\n`;
+      const files = { "entry.ts": `${im.imp}\n${tail}`, "consts.ts": im.lib };
+      if (im.hop) files["hop.ts"] = im.hop;
+      out.push({ id: `value-and-type-share-a-name:${sn}:${inn}`, single: `const Level = "high" as const;\n${tail}`, files, values: [sh.val("high"), sh.val("low")], expect: "YN", collision: true });
+    }
+  return out;
+}
+
 export async function run(ctx) {
   if (ctx.shard === 0) {
-    for (const p of sameNameGrid()) {
+    for (const p of [...sameNameGrid(), ...valueTypeNameGrid()]) {
       const a = await compileFiles(ctx, { "entry.ts": p.single });
       const b = await compileFiles(ctx, p.files);
       ctx.judged();
@@ -104,7 +128,7 @@ export async function run(ctx) {
       const vals = p.values.map(fromEjson);
       const v1 = verdicts(a.parsers.P, vals),
         v2 = verdicts(b.parsers.P, vals);
-      if (v1.join("") !== "YNNN") throw new Error(`C09 same-name grid: single-file verdicts ${v1.join("")} for ${p.id}`);
+      if (v1.join("") !== (p.expect || "YNNN")) throw new Error(`C09 same-name grid: single-file verdicts ${v1.join("")} for ${p.id}`);
       const i = v1.findIndex((x, k) => x !== v2[k]);
       if (i >= 0) ctx.violation({ signature: `verdicts-differ|name-collision|${p.id}`, clause: "validators-differ", detail: `${p.id}: single-file ${v1.join("")} split ${v2.join("")}\n${Object.entries(p.files).map(([k, v]) => `--- ${k} ---\n${v}`).join("\n")}`, replay: { ...where, parser: "P", value: p.values[i] } });
     }
